@@ -9,6 +9,8 @@ Helper lemmas for C12, token level: the two-buffer machine of `collect_hints` se
 import Paroxy.Spec.Hints
 namespace Paroxy.Hints
 
+variable {O : CharOracle}
+
 /-! ### One label -/
 
 structure St1 where
